@@ -105,7 +105,7 @@ def Heap.get (h : Heap) (i : Nat) : V3 := h.getD i V3.zero
 
 inductive Kind where
   | op | face | angle | spline | oncurve | edge | circle | lcurve | dcurve | icurve
-  | grid | firstpt | face0 | sketchavg | shape | sphere | stack | joint | asm | other | facept3
+  | grid | firstpt | face0 | sketchavg | shape | sphere | stack | joint | asm | other | facept3 | oval | ringc
   deriving DecidableEq, Repr
 
 inductive Ent where
@@ -264,7 +264,7 @@ def shapeLikeCenterV : VEnt → Option V3
 inductive CRule where
   | position | avgRows | zero | curveOf | avgDiscretize | lineMid | circleOrigin | facePoints | opPoints
   | avgOpCenters | partPoint (attr : String) (fromEnd : Nat) | stackOps | avgShapeCenters | gridCorners
-  | firstFacePoint | firstFaceCenter | avgFaceCenters | observed | firstFacePoint3
+  | firstFacePoint | firstFaceCenter | avgFaceCenters | observed | firstFacePoint3 | ovalMid
   deriving DecidableEq, Repr
 
 /-- the expression of the source the rule transcribes (bound names `v0, v1, …`) -/
@@ -288,6 +288,7 @@ def CRule.src : CRule → String
   | .avgFaceCenters => "np.average([v0.center for v0 in self.faces], axis=0)"
   | .observed => "?"
   | .firstFacePoint3 => "self.faces[0].points[3].position"
+  | .ovalMid => "(self.faces[0].points[0].position + self.faces[5].points[0].position) / 2"
 
 /-- which rule an entity of a kind runs -/
 def ruleOf : Kind → CRule
@@ -310,6 +311,8 @@ def ruleOf : Kind → CRule
   | .sketchavg => .avgFaceCenters
   | .other => .observed
   | .facept3 => .firstFacePoint3
+  | .oval => .ovalMid
+  | .ringc => .partPoint "_center" 1
 
 /-- evaluation of a rule on a node (`oc`: the observed centre for entities without a modelled rule);
     `curveOf` is resolved by `centerV` -/
@@ -342,6 +345,13 @@ def CRule.eval (oc : Option V3) (r : CRule) (e : VEnt) : Option V3 :=
   | .avgFaceCenters => some (avg (ch.map faceCenterV))
   | .observed => oc
   | .firstFacePoint3 => (ch.head?).bind (fun f0 => (facePtsV f0)[3]?)
+  | .ovalMid =>
+      match ch[0]?, ch[5]? with
+      | some f0, some f5 =>
+          match (facePtsV f0).head?, (facePtsV f5).head? with
+          | some a, some b => some (V3.smul (1 / 2) (a + b))
+          | _, _ => none
+      | _, _ => none
 
 /-- centre of the curve an `OnCurve`/`Spline` edge holds -/
 def curveCenterV (oc : Option V3) (c : VEnt) : Option V3 :=
@@ -421,9 +431,9 @@ def schema : List Row := [
   ⟨"Operation", [.op], [one "bottom_face" .face, one "top_face" .face, many "side_edges" .edgeData 4 (some 4)]⟩,
   ⟨"Origin", [.edge], [one "origin" .pt]⟩,
   ⟨"Point", [], [one "self" .any]⟩,
-  ⟨"QuarterSplineRing", [.other], [many "super().parts" .face 1, one "_center" .pt]⟩,
+  ⟨"QuarterSplineRing", [.ringc], [many "super().parts" .face 1, one "_center" .pt]⟩,
   ⟨"Shape", [.shape], [many "operations" .op 1]⟩,
-  ⟨"Sketch", [.grid, .firstpt, .face0, .sketchavg, .other, .facept3], [many "faces" .face 1]⟩,
+  ⟨"Sketch", [.grid, .firstpt, .face0, .sketchavg, .other, .facept3, .oval], [many "faces" .face 1]⟩,
   ⟨"Spline", [.spline], [one "curve" .curve]⟩,
   ⟨"Stack", [.stack], [many "shapes" .shape 1]⟩]
 
@@ -469,11 +479,12 @@ def centerRows : List (String × CRule) := [
   ("DiscreteCurve", ruleOf .dcurve), ("DiskBase", ruleOf .firstpt), ("EdgeData", ruleOf .edge),
   ("EighthSphere", ruleOf .sphere), ("Face", ruleOf .face), ("Grid", ruleOf .grid), ("JointBase", ruleOf .joint),
   ("LineCurve", ruleOf .lcurve), ("MappedSketch", ruleOf .sketchavg), ("OnCurve", ruleOf .oncurve),
-  ("OneCoreDisk", ruleOf .face0), ("Operation", ruleOf .op), ("Point", .position), ("Shape", ruleOf .shape),
+  ("OneCoreDisk", ruleOf .face0), ("Operation", ruleOf .op), ("Oval", ruleOf .oval), ("Point", .position),
+  ("QuarterSplineRing", ruleOf .ringc), ("Shape", ruleOf .shape),
   ("Spline", ruleOf .spline), ("SplineRound", ruleOf .facept3), ("Stack", ruleOf .stack), ("WrappedDisk", ruleOf .face0)]
 
 /-- classes whose `center` is not transcribed (abstract, or the observed value is used) -/
-def observedCenters : List String := ["ElementBase", "Oval", "PointCurveBase", "QuarterSplineRing", "Sketch"]
+def observedCenters : List String := ["ElementBase", "PointCurveBase", "Sketch"]
 
 /-- a real object of class row `P` (the class whose `parts` runs) and centre class `C` (the class whose `center`
     runs) may carry kind `k` -/
@@ -650,6 +661,7 @@ def kindOfStr : String → Option Kind
   | "dcurve" => some .dcurve | "icurve" => some .icurve | "grid" => some .grid | "firstpt" => some .firstpt | "face0" => some .face0
   | "sketchavg" => some .sketchavg | "shape" => some .shape | "sphere" => some .sphere | "stack" => some .stack
   | "joint" => some .joint | "asm" => some .asm | "other" => some .other | "facept3" => some .facept3
+  | "oval" => some .oval | "ringc" => some .ringc
   | _ => none
 
 def Kind.str : Kind → String
@@ -657,6 +669,7 @@ def Kind.str : Kind → String
   | .edge => "edge" | .circle => "circle" | .lcurve => "lcurve" | .dcurve => "dcurve" | .icurve => "icurve"
   | .grid => "grid" | .firstpt => "firstpt" | .face0 => "face0" | .sketchavg => "sketchavg" | .shape => "shape" | .sphere => "sphere"
   | .stack => "stack" | .joint => "joint" | .asm => "asm" | .other => "other" | .facept3 => "facept3"
+  | .oval => "oval" | .ringc => "ringc"
 
 /-- post-order token of a tree: `P<i>`, `D<i>`, `A<i;j;…>`, `N:<kind>:<attr>:<number of parts>` -/
 def parseTok (st : List Ent) (tok : String) : Option (List Ent) :=
